@@ -359,6 +359,39 @@ def _r12(model, rep):
                  f"second neighbour is missing (f2t[1] == -1)", line)
 
 
+def _interior_basis(model, rep):
+    R1 = "C02-R1"
+    icls = model.cls(f"{AB}.interior_facet_basis", "InteriorFacetBasis")
+    path, line = icls.path, icls.methods["__init__"].lineno
+    for side in (0, 1):
+        obj, log, qc, _, mesh, mp = _run_basis(
+            model, "InteriorFacetBasis", "interior_facet_basis",
+            {"side": side})
+        find = obj.attrs.get("find")
+        tind = obj.attrs.get("tind")
+        nf = [r for r in log if r.what == "mesh.normalize_facets"]
+        arg = nf[0].args[0] if nf else None
+        # normalised once here and once more (idempotently) by FacetBasis
+        chain_ok = all(nf[i + 1].args[0] is nf[i]
+                       for i in range(len(nf) - 1))
+        ok_def = (1 <= len(nf) <= 2 and isinstance(arg, tuple)
+                  and arg[0] == "nonzero"
+                  and tuple(arg[1]) == ("cmp", "!=", ("f2t", 1), -1)
+                  and chain_ok and find is nf[-1])
+        ok_side = tind == ("f2t", (side, find))
+        if ok_def and ok_side:
+            rep.ok(R1, f"InteriorFacetBasis[side={side}]",
+                   "default facets: second neighbour present (f2t[1] != "
+                   "-1); cells = f2t[side, find]")
+        else:
+            rep.fail(R1, path, "InteriorFacetBasis.__init__",
+                     f"InteriorFacetBasis[side={side}]",
+                     f"default facet set {arg!r} / adjacent cells {tind!r}: "
+                     f"interior facets are those with a second neighbour "
+                     f"and side {side} must evaluate in f2t[{side}, find]",
+                     line)
+
+
 def _order_rule(rep, rule, name, path, line, qc):
     if len(qc) != 1:
         rep.fail(rule, path, f"{name}.__init__", f"{name}:default-order",
@@ -422,6 +455,7 @@ def run(model: Model, rep, tier: str) -> None:
     rep.rule("C02-R3", "declared maxdeg >= total degree of every local "
              "basis polynomial")
     _r12(model, rep)
+    _interior_basis(model, rep)
     _r3(model, rep)
     rep.require_min("C02-R1", 12)
     rep.require_min("C02-R2", 6)
@@ -461,6 +495,9 @@ MUTANTS = [
     ("default boundary set tests the first neighbour",
      (_FB, "np.nonzero(self.mesh.f2t[1] == -1)[0]", "np.nonzero("
       "self.mesh.f2t[0] == -1)[0]"), "C02-R1"),
+    ("interior facet basis forgets to forward the side",
+     ("skfem/assembly/basis/interior_facet_basis.py",
+      "            side=side,\n", "            side=0,\n"), "C02-R1"),
     ("weights dropped from the cell dx",
      (_CB, "                   * np.broadcast_to(self.W, (self.nelems, "
       "self.W.shape[-1])))", "                   * np.ones((self.nelems, "
